@@ -319,6 +319,17 @@ class ElemStorage {
   alignas(T) std::uint8_t _el[sizeof(T)];
 };
 
+/// The new element of emplace / emplace_back is built from 'args' before the vector grows (as 'args' may refer to elements
+/// of the vector). If growing fails and it was move constructed from an rvalue of T, give the value back: like for
+/// std::vector, a failed push_back(T&&) or insert(pos, T&&) then leaves its argument (maybe an element owned by another
+/// container, or by this one) as it was.
+template <class T, typename std::enable_if<std::is_nothrow_move_assignable<T>::value, bool>::type = true>
+inline void give_back_arg(T *e, T &&arg) noexcept {
+  arg = std::move(*e);
+}
+template <class T, class... Args>
+inline void give_back_arg(T *, const Args &...) noexcept {}
+
 /// Construct at 'pos' the T from 'args' parameters, shifting 'n' elements starting at 'pos' to the right
 /// The new element is built before the shift, as 'args' may refer to one of the shifted elements.
 template <class T, class SizeType, class... Args>
@@ -925,6 +936,7 @@ class DynamicVector : public DynamicVectorBaseTypeDispatcher<T, Alloc, SizeType,
       try {
         this->grow(static_cast<uintmax_t>(this->size()) + 1U);
       } catch (...) {
+        give_back_arg(e.ptr(), std::forward<Args>(args)...);
         amc::destroy_at(e.ptr());
         throw;
       }
@@ -973,6 +985,7 @@ class DynamicVector : public DynamicVectorBaseTypeDispatcher<T, Alloc, SizeType,
       try {
         this->grow(static_cast<uintmax_t>(this->size()) + 1U);
       } catch (...) {
+        give_back_arg(e.ptr(), std::forward<Args>(args)...);
         amc::destroy_at(e.ptr());
         throw;
       }
